@@ -1384,6 +1384,9 @@ class Simplifier:
 
         coalesce.set("expressions", coalesce.expressions[:arg_index])
 
+        # `x IS NOT y` may be a negated Is node: the constant branch has to keep the negation
+        negate = {"negate": True} if expression.args.get("negate") else {}
+
         # Remove the COALESCE function. This is an optimization, skipping a simplify iteration,
         # since we already remove COALESCE at the top of this function.
         this: exp.Expr = coalesce if coalesce.expressions else coalesce.this
@@ -1399,9 +1402,9 @@ class Simplifier:
                 exp.and_(
                     this.is_(exp.null()),
                     (
-                        type(expression)(this=arg.copy(), expression=other.copy())
+                        type(expression)(this=arg.copy(), expression=other.copy(), **negate)
                         if coalesce is expression.left
-                        else type(expression)(this=other.copy(), expression=arg.copy())
+                        else type(expression)(this=other.copy(), expression=arg.copy(), **negate)
                     ),
                     copy=False,
                 ),
